@@ -18,9 +18,12 @@
     pool <entry>                  → ok <pool> enc=<entry> | err <class>
     conf <rawconf>                → ok <pool>|<pool>… | err <class>   (decodeConf, then sortPools)
     reload <rawconf>              → unchanged|rejected|configured pools=<pool>|…   (stateful: ensureConf)
+    reloadf <rawconf>             → the same with a failing ConfigurePool (ensureConfStore … false)
     reset                         → ok                                (forget the reload state)
     minus <a> <b>                 → <integer>                         (floatingip.Minus)
     less <a> <b>                  → true | false                      (FloatingIPSlice.Less on two gateways)
+    insert <ranges> <gw> <len> <ip> → true|false <ranges afterwards>  (FloatingIPPool.InsertIP, RangeEdit.insertIP)
+    remove <ranges> <gw> <len> <ip> → true|false <ranges afterwards>  (FloatingIPPool.RemoveIP, RangeEdit.removeIP)
 
     <ranges>  = f-l;f-l;…  or `-` for none
     <entry>   = null | notobj | ns=<L>,rs=<O>,ips=<L>,sn=<O>,gw=<F>,vl=<F>
@@ -30,6 +33,7 @@
     <pool>    = ns=<ip>/<len>;…,gw=<n>,pl=<n>,vlan=<n>,ranges=<f>-<l>;…,size=<n>,sub=<n>/<len>
 -/
 import Galaxy.Model.Pool
+import Galaxy.Model.RangeEdit
 import Galaxy.Drv.Common
 
 namespace Galaxy.Drv.Nets
@@ -73,6 +77,9 @@ def parseRanges (s : String) : Option (List Range) :=
       | some x, some y => some ⟨x, y⟩
       | _, _ => none
     | _ => none))
+
+def showRanges (l : List Range) : String :=
+  if l.isEmpty then "-" else joinWith ";" (l.map (fun r => toString r.first.toNat ++ "-" ++ toString r.last.toNat))
 
 def showIPs (l : List IPv4) : String := joinWith "," (l.map (fun a => toString a.toNat))
 
@@ -170,7 +177,7 @@ def showPool (p : Pool) : String :=
 def showErr : Err → String
   | .json => "json" | .noNodeSubnet => "no-node-subnet" | .nullNodeSubnet => "null-node-subnet"
   | .noGateway => "no-gateway" | .noSubnet => "no-subnet" | .badRange => "bad-range"
-  | .notInSubnet => "not-in-subnet" | .adjacency => "adjacency" | .nullPool => "null-pool"
+  | .notInSubnet => "not-in-subnet" | .adjacency => "adjacency" | .nullPool => "null-pool" | .store => "store"
 
 abbrev St := Reloader (Option RawConf)
 
@@ -253,11 +260,33 @@ def step (s : St) (line : String) : St × String :=
         | .unchanged => "unchanged" | .rejected _ => "rejected" | .configured => "configured"
       (s', os ++ " pools=" ++ showPools s'.pools)
     | none => (s, "bad-op")
+  | "reloadf" :: ws =>
+    match parseConf ws with
+    | some c =>
+      let (s', o) := ensureConfStore decodeOpt s (some c) false
+      let os := match o with
+        | .unchanged => "unchanged" | .rejected _ => "rejected" | .configured => "configured"
+      (s', os ++ " pools=" ++ showPools s'.pools)
+    | none => (s, "bad-op")
   | ["reset"] => (⟨none, []⟩, "ok")
   | ["minus", a, b] =>
     match parseIP a, parseIP b with
     | some x, some y => (s, toString (Galaxy.Generated.Nets.minus x y).toInt)
     | _, _ => (s, "bad-op")
+  | ["insert", rs, gw, pl, c] =>
+    match parseRanges rs, parseIP gw, pl.toNat?, parseIP c with
+    | some l, some g, some n, some z =>
+      (s, match Galaxy.RangeEdit.insertIP g n z l with
+        | some l' => "true " ++ showRanges l'
+        | none => "false " ++ showRanges l)
+    | _, _, _, _ => (s, "bad-op")
+  | ["remove", rs, gw, pl, c] =>
+    match parseRanges rs, parseIP gw, pl.toNat?, parseIP c with
+    | some l, some g, some n, some z =>
+      (s, match Galaxy.RangeEdit.removeIP g n z l with
+        | some l' => "true " ++ showRanges l'
+        | none => "false " ++ showRanges l)
+    | _, _, _, _ => (s, "bad-op")
   | ["less", a, b] =>
     match parseIP a, parseIP b with
     | some x, some y => (s, toString (Galaxy.Generated.Nets.poolLess x y))
